@@ -19,7 +19,7 @@ from ..explore import Chooser, explore, split_prefixes
 PROPERTY = 'C19'
 LEVEL = 'model_checking'
 
-ALPHA = ['~', 'a', '1', '"', '\\', 'e', '@', ':', '{', 'f', ' ', '\x1b']
+ALPHA = ['~', 'a', '1', '"', '\\', 'e', '@', ':', '{', 'f', ' ', '\x1b', '\n']
 
 
 def strings(alpha, maxlen):
@@ -89,7 +89,7 @@ class FakeTime:
         return getattr(time, name)
 
 
-PAYLOADS = [('a', 'p0'), ('b', {'k': 'é~~x'}), (None, ['aaaaa', 1]), ('c', 'p3')]
+PAYLOADS = [('a', 'p0'), ('b', {'k': 'é~~x', 'u': 'one\u2028two\u0085three\u2029\n\n\n\n\n'}), (None, ['aaaaa', 1, '\r\n']), ('c', 'p3')]
 
 
 def queue_run(ch: Chooser, scratch: str, nsends: int, nreaders: int, maxrecv: int, collide_ids: bool = False):
@@ -245,7 +245,7 @@ def run(rc):
     rc.pmap(queue_shard, work, chunk=1)
     rc.coverage['queue_subtrees'] = len(work)
     c = rc.total.counts
-    rc.rule = (f'codec: all strings of length <= {maxlen} over {{~ a 1 " \\ e @ : {{ f space ESC}} as data, recipient, dict value, dict key and nested '
+    rc.rule = (f'codec: all strings of length <= {maxlen} over {{~ a 1 " \\ e @ : {{ f space ESC LF}} as data, recipient, dict value, dict key and nested '
                'list through pack->unpack, and through rle_encode->rle_decode; queue: every interleaving of k sends and receives by 1-2 readers on a real '
                'file, each receive seeing the whole file or the file cut at every byte offset of the last record (full choice tree for small '
                'configurations, deviation-bounded for larger ones); non-trivial = string using an encoding character / schedule with a non-default choice')
